@@ -1,6 +1,7 @@
 import I18n.Lemmas.PoUnescape
 import I18n.Lemmas.PoFlags
 import I18n.Lemmas.PoPre
+import I18n.Lemmas.PoComments
 /-! # C10 — PO text decodes to exactly the strings gettext would see
 
 Model: `I18n.Po` (Model/Po.lean) — `polib.pofile` after `lib.polib4us.install_patches()`.
@@ -118,21 +119,36 @@ theorem flags_split (env : Env) (enc : Bytes) (hcomma : env.isSpace ',' = false)
 
 /-! ## loading -/
 
-/-- **load_spells_partial** (the full `load_spells` of the design covers comment lines too; see OUTSTANDING in the notes).
-    For every catalog of messages and every spelling of it as message lines — per message an optional `msgctxt`, `msgid`,
-    then `msgstr` or `msgid_plural` with `msgstr[0]` … `msgstr[N]` (N ≤ 9), every string spelled with any valid per-character
-    choices and cut anywhere into continuation lines (empty segments included), every line with blanks/tabs before it and any
-    white space after it, the whole entry behind the obsolete marker `#~` or not, and noise lines (white-space lines, `#~| …`,
-    bare `#.` `#:` `#,`) before the first entry and after any line except the last — polib's line loop, run on those lines
-    in any environment where the charset is ASCII-transparent and decodes what it encodes, yields exactly the catalog:
-    `msgctxt`, `msgid`, `msgid_plural`, `msgstr`, the indexed plural strings and the obsolete flag of every entry, in order
-    (line numbers aside), with an empty file header. -/
+/-- **load_spells_partial** — `load_spells` of the design for every line class except source references (`#:`), and
+    stated on the lines `Codecs.open` hands to polib (the decode / `Codecs.open` / charset-detection layers are the separate
+    theorems below; see OUTSTANDING in DESIGN-notes/po.md).
+
+    For every catalog and every spelling of it (`CatalogSp`): noise lines (white-space lines, `#~| …`, bare `#.` `#:` `#,`)
+    anywhere except after the last line; the file's header comment as `# text` lines; per entry any interleaving of
+    translator comments `# text`, extracted comments `#. text`, flag lines `#, a, b` (any white space around the items, empty
+    and duplicate items kept), previous-msgid annotations `#| msgctxt/msgid/msgid_plural "…"` with `#| "…"` continuation lines,
+    and noise; then `msgctxt`? `msgid` (`msgstr` | `msgid_plural` `msgstr[0]` … `msgstr[N]`, N ≤ 9) behind the obsolete marker
+    `#~` or not; every string spelled with any valid per-character choices (raw, letter escapes, octal/hex escaped bytes of
+    the file's charset) and cut anywhere into continuation lines, empty segments included; blanks/tabs before a message line
+    and any white space after any line —
+
+    polib's line loop with the patches, in any environment where the charset is ASCII-transparent and decodes what it
+    encodes, yields exactly: the header comment, and for every entry in order its msgctxt, msgid, msgid_plural, msgstr,
+    indexed plural strings, flags, obsolete flag, previous msgctxt/msgid/msgid_plural, extracted and translator comments
+    (everything but the line number polib records). -/
 theorem load_spells_partial (E : Codec) (env : Env) (hsp : env.isSpace = pyIsSpace) (hdec : env.decimal = pyDecimal) (enc : Bytes)
-    (hE : CodecOk env enc E) (noise0 : List Noise) (hn : ∀ z ∈ noise0, z.Valid) (ms : List MsgSp) (hne : ms ≠ [])
-    (hv : ∀ m ∈ ms, m.Valid E) (hend : ∀ m, ms.getLast? = some m → m.EndsReal) :
-    ∃ f, parseLines env enc (noise0.map Noise.render ++ ms.flatMap MsgSp.lines) = .ok f ∧ f.header = [] ∧
-      f.entries.map Lemmas.PoCatalog.content = ms.map (fun m => m.entry {}) :=
-  Lemmas.PoCatalog.parse_msgs E env hsp hdec enc hE noise0 hn ms hne hv hend
+    (hE : CodecOk env enc E) (cat : CatalogSp) (hv : cat.Valid E) :
+    ∃ f, parseLines env enc cat.lines = .ok f ∧ f.header = cat.headerText ∧
+      f.entries.map Lemmas.PoCatalog.content = cat.entries.map EntrySp.entry :=
+  Lemmas.PoComments.parse_catalog E env hsp enc hE hdec cat hv
+
+/-- attribution: the comment fields of an entry are exactly what its own comment lines say, whatever surrounds it
+    (a corollary of the shape of `EntrySp.entry`, spelled out for the reader) -/
+theorem comments_attributed (e : EntrySp) :
+    e.entry.flags = (e.comments.foldl CommentSp.apply {}).flags ∧ e.entry.comment = (e.comments.foldl CommentSp.apply {}).comment ∧
+    e.entry.tcomment = (e.comments.foldl CommentSp.apply {}).tcomment ∧
+    e.entry.previousMsgid = (e.comments.foldl CommentSp.apply {}).previousMsgid ∧ e.entry.obsolete = e.msg.pre.isObsolete :=
+  ⟨rfl, rfl, rfl, rfl, rfl⟩
 
 /-- non-vacuity: `msgid "a"` / `msgstr ""` / `"b\n"` followed by a bare `#.` inside the entry -/
 def sampleMsg : MsgSp where
@@ -149,6 +165,22 @@ example : sampleMsg.Valid asciiCodec ∧ sampleMsg.EndsReal := by
   · simp [sampleMsg, StrSp.Valid, Seg.Valid, Blank, Choice.Valid, rawOk, okSeq, okAdj, Noise.Valid]; decide
 
 example : sampleMsg.entry {} = { msgid := ['a'], msgstr := some ['b', '\n'] } := by decide
+
+/-- non-vacuity of the catalog theorem: header comment, a fuzzy entry with an extracted comment, noise -/
+def sampleCatalog : CatalogSp where
+  noiseA := [.blank ['\n']]
+  header := [⟨"hdr".toList, ['\n']⟩]
+  noiseB := []
+  entries := [⟨[.extracted ' ' "x".toList ['\n'], .flags ' ' [⟨[], "fuzzy".toList, []⟩, ⟨[' '], "c-format".toList, []⟩] ['\n']], sampleMsg⟩]
+
+example : sampleCatalog.lines =
+    ["\n".toList, "# hdr\n".toList, "#. x\n".toList, "#, fuzzy, c-format\n".toList,
+     "msgid \"a\"\n".toList, "msgstr \"\"\n".toList, "#.\n".toList, "\"b\\n\"\n".toList] := by decide
+
+example : sampleCatalog.entries.map EntrySp.entry =
+    [{ msgid := ['a'], msgstr := some ['b', '\n'], comment := ['x'], flags := ["fuzzy".toList, "c-format".toList] }] := by decide
+
+example : sampleCatalog.headerText = "hdr".toList := by decide
 
 /-- `Codecs.open` yields every physical line up to the last one it does not hold back, in order (atypical comments
     normalised), and drops the held-back lines after it (fix ed9c45c put the comment forms polib skips among them) -/
